@@ -1,6 +1,7 @@
 package harness
 
 import (
+	"strconv"
 	"sync"
 	"testing"
 	"testing/synctest"
@@ -307,5 +308,6 @@ func runJoinBubble(js joinScenario) result {
 		res.vals = append(res.vals, "flags")
 		res.vals = append(res.vals, log.flags...)
 	}
+	res.vals = append(res.vals, "goroutines", strconv.Itoa(libGoroutines()))
 	return res
 }
